@@ -2,7 +2,7 @@
    Only statements closed by [exact <lemma>] and their assumptions.                    *)
 From Coq Require Import ZArith Reals List.
 From FF Require Import Base.Ops Inst.RInst Base.RAlg Base.FMat Model.Numeric Model.Decay Model.Cumulant
-     Model.Tie.C12 Proofs.CMBase Proofs.BasisIndep Proofs.FrameInv Proofs.PauliOnb.
+     Model.Tie.C12 Proofs.CMBase Proofs.BasisIndep Proofs.FrameInv Proofs.PauliOnb Proofs.Trapz Proofs.Decay Proofs.BasisChange.
 From FF Require Model.Consts Inst.Param Corr.Agree Corr.Obs Corr.ObsC08.
 Import ListNotations.
 Local Open Scope R_scope.
@@ -57,6 +57,54 @@ Theorem C12_frame_covariance : forall d (Wm : MatR), funitary d (toF Wm) ->
   a3get RO (control_matrix_from_scratch RO d thr evs Vs (propagators RO d evs Vs dts) om bs ns nc dts (times RO dts)) j k o.
 Proof. exact frame_covariance_cm. Qed.
 Print Assumptions C12_frame_covariance.
+
+(* ---------- change of basis: O_km = tr(C'_k C_m) ---------- *)
+(* O is real orthogonal (columns) and expands the new basis in the old one *)
+Theorem C12_O_orthogonal : forall d n (Cb Cb' : nat -> fmat),
+  basis_herm d n Cb -> basis_orthonormal d n Cb -> basis_herm d n Cb' -> basis_complete d n Cb' ->
+  forall m p, (m < n)%nat -> (p < n)%nat ->
+  sumn' n (fun k => Omat d Cb Cb' k m * Omat d Cb Cb' k p) = if Nat.eqb m p then 1 else 0.
+Proof. exact O_columns_orthonormal. Qed.
+(* the control matrix transforms as B' = O B *)
+Theorem C12_cm_change_of_basis : forall d n (Cb Cb' : nat -> fmat),
+  basis_herm d n Cb -> basis_complete d n Cb -> basis_herm d n Cb' ->
+  forall thr evs Vs om (bs bs' : list MatR) ns nc dts j k o,
+  length bs = n -> length bs' = n ->
+  (forall m, (m < n)%nat -> feq d (toF (nthm bs m)) (Cb m)) -> (forall m, (m < n)%nat -> feq d (toF (nthm bs' m)) (Cb' m)) ->
+  (j < length ns)%nat -> (k < n)%nat -> (o < length om)%nat ->
+  a3get RO (control_matrix_from_scratch RO d thr evs Vs (propagators RO d evs Vs dts) om bs' ns nc dts (times RO dts)) j k o =
+  csumn' n (fun m => cmul' (CumulantCCP.rcx (Omat d Cb Cb' k m))
+    (a3get RO (control_matrix_from_scratch RO d thr evs Vs (propagators RO d evs Vs dts) om bs ns nc dts (times RO dts)) j m o)).
+Proof. exact cm_change_of_basis. Qed.
+Print Assumptions C12_cm_change_of_basis.
+(* ... the decay amplitudes as Gamma' = O Gamma O^T ... *)
+Theorem C12_Gamma_change_of_basis : forall d n (Cb Cb' : nat -> fmat) na no (Bm Bm' : A3r) idx (sp : spectrumR) omega i j k l,
+  (forall a k o, (a < na)%nat -> (k < n)%nat -> (o < no)%nat ->
+     a3get RO Bm' a k o = csumn' n (fun m => cmul' (CumulantCCP.rcx (Omat d Cb Cb' k m)) (a3get RO Bm a m o))) ->
+  (sel idx i < na)%nat -> (sel idx j < na)%nat -> (k < n)%nat -> (l < n)%nat ->
+  Gamma Bm' Bm' idx sp no omega i j k l =
+  sumn' n (fun m => sumn' n (fun p => Omat d Cb Cb' k m * Omat d Cb Cb' l p * Gamma Bm Bm idx sp no omega i j m p)).
+Proof. exact Gamma_change_of_basis. Qed.
+(* ... and the first-order cumulant function as K' = O K O^T (K_change_of_basis), so its trace is invariant *)
+Theorem C12_K_change_of_basis : forall d n (Cb Cb' : nat -> fmat),
+  basis_herm d n Cb -> basis_orthonormal d n Cb -> basis_complete d n Cb -> basis_herm d n Cb' -> basis_complete d n Cb' ->
+  forall G G' : RMr,
+  (forall k l, (k < n)%nat -> (l < n)%nat ->
+     rmget RO G' k l = sumn' n (fun m => sumn' n (fun p => Omat d Cb Cb' k m * Omat d Cb Cb' l p * rmget RO G m p))) ->
+  forall i j, (i < n)%nat -> (j < n)%nat ->
+  K1_entry RO n (T4 d Cb') G' i j =
+  csumn' n (fun a => csumn' n (fun b => cmul' (cmul' (CumulantCCP.rcx (Omat d Cb Cb' i a)) (CumulantCCP.rcx (Omat d Cb Cb' j b)))
+                                          (K1_entry RO n (T4 d Cb) G a b))).
+Proof. exact K1_change_of_basis. Qed.
+Print Assumptions C12_K_change_of_basis.
+Theorem C12_K_trace_invariant : forall d n (Cb Cb' : nat -> fmat),
+  basis_herm d n Cb -> basis_orthonormal d n Cb -> basis_complete d n Cb -> basis_herm d n Cb' -> basis_complete d n Cb' ->
+  forall G G' : RMr,
+  (forall k l, (k < n)%nat -> (l < n)%nat ->
+     rmget RO G' k l = sumn' n (fun m => sumn' n (fun p => Omat d Cb Cb' k m * Omat d Cb Cb' l p * rmget RO G m p))) ->
+  csumn' n (fun i => K1_entry RO n (T4 d Cb') G' i i) = csumn' n (fun a => K1_entry RO n (T4 d Cb) G a a).
+Proof. exact K1_trace_invariant. Qed.
+Print Assumptions C12_K_trace_invariant.
 
 (* hypotheses satisfiable *)
 Example C12_pauli_is_complete_onb :
